@@ -109,12 +109,49 @@ fn av_codec<T: Form + AsCborValue>(op: &str, arg: &Sx, o: &mut String) -> Option
     Some(())
 }
 
+thread_local! {
+    /// the value of each type decoded last (for the `clone_from` observation below)
+    static LAST: std::cell::RefCell<std::collections::HashMap<std::any::TypeId, Box<dyn std::any::Any>>> = std::cell::RefCell::new(std::collections::HashMap::new());
+}
+
+/// The provided methods of `Clone` and `PartialEq` can be overridden (`clone_from`, `ne`): a copy made by either route equals its source,
+/// and `!=` is the negation of `==`.  Observed on every decoded value, against the value of the same type decoded before it.
+fn copies_agree<T: Form + Clone + PartialEq + 'static>(x: &T) -> bool {
+    // compared through the printed form (bit-exact for floats: a NaN is not `==` to itself)
+    fn show<T: Form>(x: &T) -> String {
+        let mut s = String::new();
+        x.print(&mut s);
+        s
+    }
+    let ok = guard(|| {
+        let sx = show(x);
+        #[allow(clippy::eq_op)]
+        let mut fine = show(&x.clone()) == sx && ((*x == *x) != (*x != *x));
+        LAST.with(|l| {
+            let mut l = l.borrow_mut();
+            if let Some(prev) = l.get(&std::any::TypeId::of::<T>()).and_then(|p| p.downcast_ref::<T>()) {
+                let mut y = prev.clone();
+                y.clone_from(x);
+                fine = fine && show(&y) == sx && ((*prev == *x) != (*prev != *x));
+            }
+            l.insert(std::any::TypeId::of::<T>(), Box::new(x.clone()));
+        });
+        fine
+    });
+    ok == Some(true)
+}
+
 /// `dec` / `enc` / `chain` / `layer` (+ `fromv` / `tov`)
-fn codec<T: Form + CborSerializable + Clone + PartialEq>(op: &str, arg: &Sx, o: &mut String) -> Option<()> {
+fn codec<T: Form + CborSerializable + Clone + PartialEq + 'static>(op: &str, arg: &Sx, o: &mut String) -> Option<()> {
     match op {
         "dec" => {
             let b = p_bytes(arg)?;
-            res_form(o, guard(|| T::from_slice(&b)));
+            if let Some(x) = res_form(o, guard(|| T::from_slice(&b))) {
+                if !copies_agree(&x) {
+                    o.clear();
+                    o.push_str("bad-clone");
+                }
+            }
         }
         "enc" => {
             let x = T::parse(arg)?;
@@ -199,7 +236,7 @@ fn codec<T: Form + CborSerializable + Clone + PartialEq>(op: &str, arg: &Sx, o: 
 }
 
 /// `dect` / `enct` / `chaint` (+ everything of `codec`)
-fn tagged_codec<T: Form + CborSerializable + TaggedCborSerializable + Clone + PartialEq>(
+fn tagged_codec<T: Form + CborSerializable + TaggedCborSerializable + Clone + PartialEq + 'static>(
     op: &str,
     arg: &Sx,
     o: &mut String,
